@@ -681,6 +681,11 @@ class MQTTProtocol(MQTTBaseProtocol):
                 request = self.factory.windowUnsubscribe[self.addr][k]
                 del self.factory.windowUnsubscribe[self.addr][k]
                 request.deferred.errback(reason)
+            queue = self.factory.queuePublishTx[self.addr]
+            while queue:
+                request = queue.popleft()
+                if not request.deferred.called:
+                    request.deferred.errback(reason)
             self._purgeSession(reason)
 
 __all__ = [ "MQTTProtocol" ]
